@@ -17,13 +17,17 @@ def parse_reply(reply):
     inst = ws[0]
     outs = []
     for w in ws[1:]:
+        haz = 0
+        if "~" in w:
+            w, _, h = w.partition("~")
+            haz = int(h)
         nan = w.endswith("!")
         if nan:
             w = w[:-1]
         if w.startswith("v:"):
-            outs.append(("v", [int(x) for x in w[2:].split(",") if x], nan))
+            outs.append(("v", [int(x) for x in w[2:].split(",") if x], nan, haz))
         elif w.startswith("trap/"):
-            outs.append(("trap", w[5:], nan))
+            outs.append(("trap", w[5:], nan, haz))
         elif w == "oof":
             outs.append(("oof",))
         else:
@@ -63,7 +67,7 @@ def cmp_value(t, spec_bits, impl, args_nan, args_inf):
             return "result-out-of-range"
         if v % (1 << n) == spec_bits:
             return None
-        return "wrong-value"
+        return "nan-operand" if args_nan else "wrong-value"
     # float result
     if kind == "i":
         return "result-type-int"
@@ -116,6 +120,8 @@ def classify_call(ptypes, rtypes, args, spec, impl):
     if impl[0] == "exc":
         return "spurious-trap" if impl[1] in X.TRAP_NAMES else "raises-" + impl[1]
     vals = impl[1]
+    if not rtypes:
+        return None          # no results: whatever the host call returns is not a wasm result
     if len(vals) != len(rtypes):
         return "result-count"
     for t, sb, iv in zip(rtypes, spec[1], vals):
@@ -125,14 +131,46 @@ def classify_call(ptypes, rtypes, args, spec, impl):
     return None
 
 
-def evaluate(task, target, job, reply, report):
-    """compare one (task, target).  report(signature, what, case, **detail) is called per failing call (first per signature only
-    carries the full case); returns a dict of counters."""
+# Regions of the input space where ppci has OPEN known findings (recorded precisely by the operator matrix and the
+# patterns, see findings/C22.json).  A random program whose *reference* execution enters such a region is not compared
+# from that call on (its state may legitimately have diverged); everything before is compared.
+KNOWN_HAZARDS = {"python": {2: "f32 arithmetic is evaluated in double precision and not rounded",
+                            4: "float division by zero raises a spurious trap"},
+                 "native": {1: "float comparison with a NaN operand"}}
+KNOWN_TRAPS = {"python": ("integer-overflow-in-division", "out-of-bounds-memory-access", "undefined-element", "uninitialized-element",
+                          "indirect-call-type-mismatch"),
+               "native": None}    # None: every trap (the native target has no working trap at all)
+
+
+def known_region(target, spec):
+    """reason string if this reference outcome lies in a region with an open known finding for `target`"""
+    if spec[0] == "trap":
+        kt = KNOWN_TRAPS[target]
+        if kt is None or spec[1] in kt:
+            return "trap:" + spec[1]
+    for bit, why in KNOWN_HAZARDS[target].items():
+        if spec[3] & bit:
+            return "hazard:" + str(bit)
+    return None
+
+
+def component(label):
+    """leading numeric opcode of a pattern label ("f64.lt;i32.eqz;if" -> "f64.lt"), None if there is none"""
+    head = label.split(";")[0].split("[")[0]
+    return head if head in G.NUMERIC and head != label else None
+
+
+def evaluate(task, target, job, parsed, report, failed_ops=None):
+    """compare one (task, target).  `parsed` = parse_reply(...) of the reference run.  report(signature, what, case, **detail)
+    is called per failing call.  `failed_ops`: {(target, opcode, args): class} of the operator matrix — filled for kind "ops",
+    consulted for patterns: a pattern that fails on operands on which its leading opcode alone already fails is attributed to
+    that opcode's signature.  Returns a dict of counters."""
     d = task["desc"]
-    cnt = {"calls": 0, "agree": 0, "skipped_nan_bits": 0, "skipped_oof": 0}
-    inst, outs, final = parse_reply(reply)
+    cnt = {"calls": 0, "agree": 0, "skipped_nan_bits": 0, "skipped_oof": 0, "skipped_known_region": 0}
+    inst, outs, final = parsed
     name0 = task.get("name", task["id"])
     case0 = {"task": task["id"], "target": target}
+    allcalls = [[c[0], list(c[1])] for c in task["calls"]]
     if inst[0] == "bad" or inst.startswith("inst-stuck"):
         raise RuntimeError(f"reference interpreter rejected task {task['id']}: {inst}")
     ji = job.inst or {"inst": "no-reply"}
@@ -140,28 +178,38 @@ def evaluate(task, target, job, reply, report):
         if inst == "inst-oof":
             cnt["skipped_oof"] += 1
             return cnt
-        # instantiation traps in the specification
+        cnt["calls"] += 1
         if ji["inst"] == "exc" and ji.get("name") in X.TRAP_NAMES:
             cnt["agree"] += 1
         else:
             cls = "trap-missing" if ji["inst"] == "ok" else ("trap-as-" + ji.get("name", ji["inst"]))
-            report(f"{target}:{name0}:instantiate-{cls}", f"instantiation must trap ({inst}), ppci: {ji}", dict(case0, module=d))
+            report(f"{target}:{name0}:instantiate-{cls}", f"instantiation must trap ({inst}), ppci: {ji}", dict(case0, module=d, calls=[]))
         return cnt
     if ji["inst"] != "ok":
         cls = "raises-" + ji["name"] if ji["inst"] == "exc" else ji["inst"]
-        report(f"{target}:{name0}:instantiate-{cls}", f"instantiate(target={target!r}) fails: {ji}", dict(case0, module=d))
+        report(f"{target}:{name0}:instantiate-{cls}", f"instantiate(target={target!r}) fails: {ji}", dict(case0, module=d, calls=[]))
         return cnt
     tolerant = False
+    complete = True
     for k, (fi, args, label) in enumerate(task["calls"]):
         if k >= len(outs):
+            complete = False
             break
         spec = outs[k]
         if spec[0] == "oof":
             cnt["skipped_oof"] += 1
+            complete = False
             break
         if spec[0] == "stuck":
             raise RuntimeError(f"reference interpreter stuck in task {task['id']} call {k}: {spec}")
+        if task["kind"] == "program":
+            why = known_region(target, spec)
+            if why:
+                cnt["skipped_known_region"] += len(task["calls"]) - k
+                complete = False
+                break
         if k not in job.results:
+            complete = False
             break
         impl = job.results[k]
         cnt["calls"] += 1
@@ -172,47 +220,55 @@ def evaluate(task, target, job, reply, report):
         elif (tolerant or spec[2]) and cls in ("wrong-value", "nan-operand", "nan-result"):
             cnt["skipped_nan_bits"] += 1
         else:
+            sig_label, sig_cls = label, cls
+            if task["kind"] == "ops" and failed_ops is not None:
+                failed_ops[(target, label, tuple(args))] = cls
+            comp = component(label)
+            if comp and failed_ops and (target, comp, tuple(args)) in failed_ops:
+                sig_label, sig_cls = comp, failed_ops[(target, comp, tuple(args))]
             what = (f"{label}({', '.join(show(t, b) for t, b in zip(ft[0], args))}) on target {target}: ppci gives {show_impl(ft[1], impl)}, "
                     f"the specification gives {show_spec(ft[1], spec)}")
-            report(f"{target}:{label}:{cls}", what,
-                   dict(case0, call=k, func=fi, args=list(args), label=label, module=(d if task["kind"] != "ops" else single_op_module(label))),
-                   impl=impl, spec=list(spec))
+            if task["kind"] == "ops":
+                case = dict(case0, module=single_op_module(label), calls=[[0, list(args)]], label=label)
+            elif task.get("stateless"):
+                case = dict(case0, module=d, calls=[[fi, list(args)]], label=label)
+            else:
+                case = dict(case0, module=d, calls=allcalls[:k + 1], label=label)
+            report(f"{target}:{sig_label}:{sig_cls}", what, case, impl=impl, spec=list(spec))
         tolerant = tolerant or bool(spec[2])
         if impl[0] == "timeout" or impl[0].startswith("crash-"):
             if not task.get("stateless"):
                 return cnt
-    # final state (only when every call was executed on both sides)
-    if final is not None and job.final is not None and len(outs) == len(task["calls"]) and all(o[0] in ("v", "trap") for o in outs):
+    # final state (only when every call was executed and compared on both sides)
+    if complete and not task.get("nofinal") and final is not None and job.final is not None:
         tol = tolerant or final["nan"]
         jm = job.final.get("mem")
+        case = dict(case0, module=d, calls=allcalls, label=name0)
         if d.get("mem") is not None:
+            cnt["calls"] += 1
             if not isinstance(jm, list) or len(jm) != 2 or not isinstance(jm[1], dict):
-                report(f"{target}:{name0}:memory-read-{'-'.join(str(x) for x in (jm or ['none'])[:2])}", f"reading the exported memory failed: {jm}",
-                       dict(case0, module=d, calls=[[c[0], list(c[1])] for c in task["calls"]]))
-            else:
-                cnt["calls"] += 1
-                if jm[0] != final["mem"][0]:
-                    report(f"{target}:{name0}:memory-size", f"memory has {jm[0]} pages, the specification gives {final['mem'][0]}",
-                           dict(case0, module=d, calls=[[c[0], list(c[1])] for c in task["calls"]]))
-                elif jm[1] != final["mem"][1]:
-                    if tol:
-                        cnt["skipped_nan_bits"] += 1
-                    else:
-                        report(f"{target}:{name0}:memory-differs", f"final memory differs: ppci {trim(jm[1])}, specification {trim(final['mem'][1])}",
-                               dict(case0, module=d, calls=[[c[0], list(c[1])] for c in task["calls"]]))
+                report(f"{target}:{name0}:memory-read-{'-'.join(str(x) for x in (jm or ['none'])[:2])}", f"reading the exported memory failed: {jm}", case)
+            elif jm[0] != final["mem"][0]:
+                report(f"{target}:{name0}:memory-size", f"exported memory has {jm[0]} pages, the specification gives {final['mem'][0]}", case)
+            elif jm[1] != final["mem"][1]:
+                if tol:
+                    cnt["skipped_nan_bits"] += 1
                 else:
-                    cnt["agree"] += 1
+                    diff = {a: (jm[1].get(a), final["mem"][1].get(a)) for a in sorted(set(jm[1]) | set(final["mem"][1]), key=int)
+                            if jm[1].get(a) != final["mem"][1].get(a)}
+                    report(f"{target}:{name0}:memory-differs", f"final memory differs (addr: ppci, specification): {trim(diff)}", case)
+            else:
+                cnt["agree"] += 1
         for gi, (g, sb) in enumerate(zip(d.get("globals", []), final["globals"])):
             ig = job.final["globals"][gi] if gi < len(job.final["globals"]) else ["exc", "missing", ""]
             cnt["calls"] += 1
-            cls = classify_call([], [g[0]], [], ("v", [sb], False), ig)
+            cls = classify_call([], [g[0]], [], ("v", [sb], False, 0), ig)
             if cls is None:
                 cnt["agree"] += 1
             elif tol and cls in ("wrong-value", "nan-result"):
                 cnt["skipped_nan_bits"] += 1
             else:
-                report(f"{target}:{name0}:global-{g[0]}-{cls}", f"exported global {gi} ({g[0]}): ppci {ig}, specification bits {sb}",
-                       dict(case0, module=d, calls=[[c[0], list(c[1])] for c in task["calls"]], glob=gi))
+                report(f"{target}:{name0}:global-{g[0]}-{cls}", f"exported global {gi} ({g[0]}): ppci {ig}, specification bits {sb}", dict(case, glob=gi))
     return cnt
 
 
